@@ -1134,7 +1134,7 @@ class FileStorage(
 
     def _txn_find(self, tid, stop_at_pack):
         pos = self._pos
-        while pos > 39:
+        while pos > 4:
             self._file.seek(pos - 8)
             pos = pos - u64(self._file.read(8)) - 8
             self._file.seek(pos)
@@ -2208,8 +2208,9 @@ class UndoSearch:
 
     def finished(self):
         """Return True if UndoSearch has found enough records."""
-        # BAW: Why 39 please?  This makes no sense (see also below).
-        return self.i >= self.last or self.pos < 39 or self.stop
+        # (4: the log begins right after the file's magic.  The shortest
+        # transaction -- no records, no metadata -- is 31 bytes long.)
+        return self.i >= self.last or self.pos <= 4 or self.stop
 
     def search(self):
         """Search for another record."""
